@@ -26,7 +26,7 @@ Definition w_user_prefix_xml_user : nsmap := [((Some [120;109;108]%N), [117;114;
 Definition w_user_prefix_xml_evs : list wevent := [(WStart ((Some [117;114;110;58;97]%N), [114]%N)); (WEnd ((Some [117;114;110;58;97]%N), [114]%N))].
 Lemma user_prefix_xml_refuted :
   clause_vector default_config w_user_prefix_xml_user w_user_prefix_xml_evs
-  = [false; true; true; true; true; true; true; true; true]
+  = [false; true; true; true; true; true; true; true]
   /\ native_sound_b default_config w_user_prefix_xml_user w_user_prefix_xml_evs = false.
 Proof. vm_compute. repeat split; reflexivity. Qed.
 
@@ -65,18 +65,10 @@ Lemma non_xml_char_refuted :
   /\ native_sound_b default_config w_non_xml_char_user w_non_xml_char_evs = false.
 Proof. vm_compute. repeat split; reflexivity. Qed.
 
-Definition w_adjacent_data_user : nsmap := (@nil (option str * str)).
-Definition w_adjacent_data_evs : list wevent := [(WStart (None, [114]%N)); (WData (VAtom (AText [97]%N))); (WData (VAtom (AText [98]%N))); (WEnd (None, [114]%N))].
-Lemma adjacent_data_refuted :
-  only_clause_fails 4 (clause_vector default_config w_adjacent_data_user w_adjacent_data_evs) = true
-  /\ native_sound_b default_config w_adjacent_data_user w_adjacent_data_evs = false
-  /\ lxml_sound_b default_config w_adjacent_data_user w_adjacent_data_evs = false.
-Proof. vm_compute. repeat split; reflexivity. Qed.
-
 Definition w_late_qname_data_user : nsmap := (@nil (option str * str)).
 Definition w_late_qname_data_evs : list wevent := [(WStart (None, [114]%N)); (WStart (None, [99]%N)); (WEnd (None, [99]%N)); (WData (VAtom (AQName ((Some [117;114;110;58;98]%N), [119]%N)))); (WEnd (None, [114]%N))].
 Lemma late_qname_data_refuted :
-  only_clause_fails 5 (clause_vector default_config w_late_qname_data_user w_late_qname_data_evs) = true
+  only_clause_fails 4 (clause_vector default_config w_late_qname_data_user w_late_qname_data_evs) = true
   /\ native_sound_b default_config w_late_qname_data_user w_late_qname_data_evs = false
   /\ lxml_sound_b default_config w_late_qname_data_user w_late_qname_data_evs = false.
 Proof. vm_compute. repeat split; reflexivity. Qed.
@@ -84,7 +76,7 @@ Proof. vm_compute. repeat split; reflexivity. Qed.
 Definition w_nil_kept_with_content_user : nsmap := (@nil (option str * str)).
 Definition w_nil_kept_with_content_evs : list wevent := [(WStart (None, [114]%N)); (WAttr ((Some [104;116;116;112;58;47;47;119;119;119;46;119;51;46;111;114;103;47;50;48;48;49;47;88;77;76;83;99;104;101;109;97;45;105;110;115;116;97;110;99;101]%N), [110;105;108]%N) (VAtom (AText [116;114;117;101]%N))); (WData VNone); (WStart (None, [99]%N)); (WEnd (None, [99]%N)); (WEnd (None, [114]%N))].
 Lemma nil_kept_with_content_refuted :
-  only_clause_fails 6 (clause_vector default_config w_nil_kept_with_content_user w_nil_kept_with_content_evs) = true
+  only_clause_fails 5 (clause_vector default_config w_nil_kept_with_content_user w_nil_kept_with_content_evs) = true
   /\ native_sound_b default_config w_nil_kept_with_content_user w_nil_kept_with_content_evs = false
   /\ lxml_sound_b default_config w_nil_kept_with_content_user w_nil_kept_with_content_evs = false.
 Proof. vm_compute. repeat split; reflexivity. Qed.
@@ -92,7 +84,7 @@ Proof. vm_compute. repeat split; reflexivity. Qed.
 Definition w_clark_datatype_text_user : nsmap := (@nil (option str * str)).
 Definition w_clark_datatype_text_evs : list wevent := [(WStart (None, [114]%N)); (WAttr (None, [120]%N) (VAtom (AText [123;104;116;116;112;58;47;47;119;119;119;46;119;51;46;111;114;103;47;50;48;48;49;47;88;77;76;83;99;104;101;109;97;125;105;110;116]%N))); (WEnd (None, [114]%N))].
 Lemma clark_datatype_text_refuted :
-  only_clause_fails 7 (clause_vector default_config w_clark_datatype_text_user w_clark_datatype_text_evs) = true
+  only_clause_fails 6 (clause_vector default_config w_clark_datatype_text_user w_clark_datatype_text_evs) = true
   /\ native_sound_b default_config w_clark_datatype_text_user w_clark_datatype_text_evs = false
   /\ lxml_sound_b default_config w_clark_datatype_text_user w_clark_datatype_text_evs = false.
 Proof. vm_compute. repeat split; reflexivity. Qed.
@@ -131,17 +123,25 @@ Example default_ns_attribute_fixed :
   /\ lxml_sound_b default_config w_default_ns_attribute_user w_default_ns_attribute_evs = true.
 Proof. vm_compute. repeat split; reflexivity. Qed.
 
+Definition w_adjacent_data_user : nsmap := (@nil (option str * str)).
+Definition w_adjacent_data_evs : list wevent := [(WStart (None, [114]%N)); (WData (VAtom (AText [97]%N))); (WData (VAtom (AText [98]%N))); (WEnd (None, [114]%N))].
+Example adjacent_data_fixed :
+  writer_guard default_config w_adjacent_data_user w_adjacent_data_evs = true
+  /\ native_sound_b default_config w_adjacent_data_user w_adjacent_data_evs = true
+  /\ lxml_sound_b default_config w_adjacent_data_user w_adjacent_data_evs = true.
+Proof. vm_compute. repeat split; reflexivity. Qed.
+
 Lemma native_sound_unguarded_refuted :
   ~ (forall cfg user evs, native_sound_b cfg user evs = true).
 Proof.
-  intros H. specialize (H default_config w_adjacent_data_user w_adjacent_data_evs).
-  destruct adjacent_data_refuted as [_ [E _]]. rewrite E in H. discriminate.
+  intros H. specialize (H default_config w_late_qname_data_user w_late_qname_data_evs).
+  destruct late_qname_data_refuted as [_ [E _]]. rewrite E in H. discriminate.
 Qed.
 Lemma lxml_sound_unguarded_refuted :
   ~ (forall cfg user evs, lxml_sound_b cfg user evs = true).
 Proof.
-  intros H. specialize (H default_config w_adjacent_data_user w_adjacent_data_evs).
-  destruct adjacent_data_refuted as [_ [_ E]]. rewrite E in H. discriminate.
+  intros H. specialize (H default_config w_late_qname_data_user w_late_qname_data_evs).
+  destruct late_qname_data_refuted as [_ [_ E]]. rewrite E in H. discriminate.
 Qed.
 
 Definition w_rich_user : nsmap := [((Some [112]%N), [117;114;110;58;114]%N); (None, [117;114;110;58;100]%N); ((Some [110;115;48]%N), [117;114;110;58;97]%N); ((Some [113]%N), [117;114;110;58;114]%N); ((Some [117;110;117;115;101;100]%N), [117;114;110;58;122;122]%N)].
